@@ -209,7 +209,7 @@ fn make_case(r: &mut rand::rngs::StdRng, k: usize) -> Case {
     let mut class = String::new();
     // vertex count / size classes of the pre-filter's case split
     for i in 0..scene.ids.len() { scene.rich[i] = r.gen_bool(0.4); }
-    let n_close = 1 + (k / 7) % 2;
+    let n_close = 1 + (k / 3) % 2;
     let mut used: Vec<usize> = Vec::new();
     for c in 0..n_close {
         // candidate pairs: relevant ones, but also adjacent links (irrelevant: must never be reported)
@@ -318,12 +318,14 @@ pub fn record_geometry(output: &str) {
                 }
             }
             // near(): a custom table with the same exemptions but its own distances, on a body that has only the exemptions
-            if mode_name == "all" && k % 2 == 0 {
+            if k % 2 == 0 {
+                // the check mode that counts is the one of the PASSED safety distances; the body's own differs
                 let own: Vec<(usize, usize, i64)> = case.table.iter().filter(|t| t.2 <= -1_000_000).cloned().collect();
-                let body2 = scene::build(&case.scene, &kin, &q0, &base_pose, safety_from(&table_json(&own), 0, 0, CheckMode::FirstCollisionOnly));
-                let custom = safety_from(&tj, case.def_env_um, case.def_robot_um, CheckMode::AllCollsions);
+                let body_mode = match mode_name { "all" => [CheckMode::FirstCollisionOnly, CheckMode::NoCheck][(k / 2) % 2], "first" => CheckMode::AllCollsions, _ => CheckMode::AllCollsions };
+                let body2 = scene::build(&case.scene, &kin, &q0, &base_pose, safety_from(&table_json(&own), 0, 0, body_mode));
+                let custom = safety_from(&tj, case.def_env_um, case.def_robot_um, mode);
                 let rep = guarded(|| in_pool(4, || body2.near(&q0, &kin, &custom)));
-                let mut e = json!({"ev": "collision", "pool": 4, "mode": "all", "tool": has_tool, "base": has_base, "nenv": nenv,
+                let mut e = json!({"ev": "collision", "pool": 4, "mode": mode_name, "tool": has_tool, "base": has_base, "nenv": nenv,
                     "table": tj, "def_env": case.def_env_um, "def_robot": case.def_robot_um, "pairs": pairs_json(&brute), "class": case.class, "case": k, "api": "near", "verdict": false});
                 match rep {
                     None => { e["outcome"] = json!("panic"); e["report"] = json!([]); }
